@@ -859,42 +859,54 @@ func ruleWRElemwise(p *Prog, r *Reporter) {
 				}
 			}
 		}
-		for _, rl := range rls {
-			if sl, isSl := rl.seq.(*ssa.Slice); isSl && (sl.Low != nil || sl.High != nil) {
-				r.Bad(p.instrPos(rl.header.Instrs[0]), name, "loop over "+normaliseD(shortD(rl.seq)), "an element-wise conversion ranges over a sub-slice of its source: elements outside it are dropped")
-				continue
-			}
-			// element writes inside the loop: out[i] = x (i the loop index) or out = append(out, x)
-			writes := blockSet{}
-			n := 0
-			for b := range rl.body {
-				for _, in := range b.Instrs {
-					switch x := in.(type) {
-					case *ssa.Store:
-						if ia, ok := x.Addr.(*ssa.IndexAddr); ok && ia.Index == ssa.Value(rl.incr) {
-							writes[b] = true
-							n++
-						}
-					case *ssa.Call:
-						if bi, ok := x.Call.Value.(*ssa.Builtin); ok && bi.Name() == "append" {
-							writes[b] = true
-							n++
-						}
+		checkElemwiseLoops(p, r, fn, name, nil)
+	}
+}
+
+// checkElemwiseLoops: in every full-range loop of fn that writes output elements (out[i] = x,
+// append, or a call accepted by sink), every iteration that continues has written its element.
+func checkElemwiseLoops(p *Prog, r *Reporter, fn *ssa.Function, name string, sink func(*ssa.Call) bool) int {
+	checked := 0
+	for _, rl := range rangeLoops(fn) {
+		if sl, isSl := rl.seq.(*ssa.Slice); isSl && (sl.Low != nil || sl.High != nil) {
+			r.Bad(p.instrPos(rl.header.Instrs[0]), name, "loop over "+normaliseD(shortD(rl.seq)), "an element-wise conversion ranges over a sub-slice of its source: elements outside it are dropped")
+			continue
+		}
+		// element writes inside the loop: out[i] = x (i the loop index) or out = append(out, x)
+		writes := blockSet{}
+		n := 0
+		for b := range rl.body {
+			for _, in := range b.Instrs {
+				switch x := in.(type) {
+				case *ssa.Store:
+					if ia, ok := x.Addr.(*ssa.IndexAddr); ok && ia.Index == ssa.Value(rl.incr) {
+						writes[b] = true
+						n++
+					}
+				case *ssa.Call:
+					if bi, ok := x.Call.Value.(*ssa.Builtin); ok && bi.Name() == "append" {
+						writes[b] = true
+						n++
+					} else if sink != nil && sink(x) {
+						writes[b] = true
+						n++
 					}
 				}
 			}
-			if n == 0 {
-				continue
-			}
-			ok := true
-			for _, latch := range rl.latches {
-				if reachAvoiding(rl.bodyBB, latch, writes) {
-					ok = false
-				}
-			}
-			r.Check(ok, p.instrPos(rl.header.Instrs[0]), name, "loop over "+normaliseD(shortD(rl.seq)), "every iteration that continues has written its output element", "an input element can be skipped (continue / conditional write) in an element-wise conversion: the converted value has fewer elements than its source (e.g. an operator dropped from an expression on the wire)")
 		}
+		if n == 0 {
+			continue
+		}
+		checked++
+		ok := true
+		for _, latch := range rl.latches {
+			if reachAvoiding(rl.bodyBB, latch, writes) {
+				ok = false
+			}
+		}
+		r.Check(ok, p.instrPos(rl.header.Instrs[0]), name, "loop over "+normaliseD(shortD(rl.seq)), "every iteration that continues has written its output element", "an input element can be skipped (continue / conditional write) in an element-wise conversion: the converted value has fewer elements than its source (e.g. an operator dropped from an expression on the wire)")
 	}
+	return checked
 }
 
 // tightestUpperBound: among the dominating comparisons of the index with constants / the sequence length,
